@@ -4,7 +4,7 @@ CONSTANTS
   MaxC = 3
   Ks <- AllStatuses
   Hook = {"none"}
-  Conds = {"none"}
+  Conds = {"none","false"}
   MaxFail = 1
 SPECIFICATION Spec
 INVARIANTS OrderKept CondFalseSkips BeforeFailBlocks StopsAtFirstFailure RunsAll ErrIffFailed ExitCodeFaithful Emit
